@@ -70,6 +70,7 @@ var (
 	kHostTo      = kind{"KHostTo", rules.ChainDispatchToHostEndpoint, rules.HostToEndpointPfx}
 	kHostFromFwd = kind{"KHostFromFwd", rules.ChainDispatchFromHostEndPointForward, rules.HostFromEndpointForwardPfx}
 	kHostToFwd   = kind{"KHostToFwd", rules.ChainDispatchToHostEndpointForward, rules.HostToEndpointForwardPfx}
+	kSetMark     = kind{"KSetMark", rules.ChainDispatchSetEndPointMark, rules.SetEndPointMarkPfx}
 	allKinds     = []kind{kWlFrom, kWlTo, kHostFrom, kHostTo, kHostFromFwd, kHostToFwd}
 )
 
@@ -181,6 +182,10 @@ func (c *converter) action(a generictables.Action) string {
 		return "ADrop"
 	case iptables.AcceptAction, *iptables.AcceptAction, nftables.AcceptAction, *nftables.AcceptAction:
 		return "AAccept"
+	case iptables.SetMaskedMarkAction:
+		return fmt.Sprintf("(ASetMark %d %d)", v.Mark, v.Mask)
+	case nftables.SetMaskedMarkAction:
+		return fmt.Sprintf("(ASetMark %d %d)", v.Mark, v.Mask)
 	case iptables.RejectAction:
 		if v.With != "" {
 			fatal("unexpected reject-with %q", v.With)
@@ -346,8 +351,33 @@ func genSuffix(r *rng, n int, alpha string) string {
 }
 
 // a set of names with shared prefixes, names that are prefixes of others, one-char suffixes
+// names whose first differing character (the one the prefix tree splits on, and which ends up in the child chain
+// name) is punctuation that is legal in interface names: '-', '.', '_' - mixed with alphanumeric bins.
+func genPunctSplit(r *rng, wlpfx []string, host bool) []string {
+	base := r.pick(wlpfx) + genSuffix(r, r.intn(2), alphaCommon)
+	if host {
+		base = r.pick([]string{"bond0", "eth1", "ens", "br"})
+	}
+	var names []string
+	seps := []string{"-", ".", "_", "-", ".", "0", "a"}
+	nb := 2 + r.intn(3)
+	for b := 0; b < nb; b++ {
+		sep := seps[r.intn(len(seps))]
+		for j, c := 0, 1+r.intn(3); j < c; j++ {
+			names = append(names, base+sep+genSuffix(r, 1+r.intn(3), alphaCommon[:4]))
+		}
+	}
+	if r.intn(3) == 0 {
+		names = append(names, base)
+	}
+	return names
+}
+
 func genNames(r *rng, wlpfx []string, host bool) ([]string, []string) {
 	var tags []string
+	if r.intn(5) == 0 {
+		return genPunctSplit(r, wlpfx, host), []string{"names:punctuation-at-split"}
+	}
 	n := r.intn(11)
 	if r.intn(12) == 0 {
 		n = 12 + r.intn(10)
@@ -410,6 +440,14 @@ func genNames(r *rng, wlpfx []string, host bool) ([]string, []string) {
 		out = append(out, s)
 	}
 	return out, tags
+}
+
+func mapNames(xs []string) []string {
+	out := make([]string, len(xs))
+	for i, x := range xs {
+		out[i] = nameTerm(x)
+	}
+	return out
 }
 
 func uniq(xs []string) []string {
@@ -508,13 +546,15 @@ func main() {
 			wc = '*'
 		}
 		host := r.intn(5) < 2
+		setmark := !host && r.intn(4) == 0 // EndpointMarkDispatchChains (set-endpoint-mark chain)
 		var tags []string
 		if nft {
 			tags = append(tags, "renderer:nftables")
 		} else {
 			tags = append(tags, "renderer:iptables")
 		}
-		names, _ := genNames(r, wlpfx, host)
+		names, ntags := genNames(r, wlpfx, host)
+		tags = append(tags, ntags...)
 		boundary := ""
 		if r.intn(12) == 0 && len(names) > 0 { // malformed / boundary stream
 			j := r.intn(len(names))
@@ -534,6 +574,37 @@ func main() {
 		}
 		if host {
 			names = uniq(names) // host endpoints come from a map keyed by interface name
+		}
+		var hepNames []string
+		if setmark {
+			hepNames, _ = genNames(r, wlpfx, true)
+			hepNames = uniq(hepNames)
+			hasWlPfx := func(s string) bool {
+				for _, p := range wlpfx {
+					if strings.HasPrefix(s, p) {
+						return true
+					}
+				}
+				return false
+			}
+			var hn []string
+			for _, h := range hepNames { // host endpoint interfaces never carry a workload prefix
+				if !hasWlPfx(h) || boundary != "" {
+					hn = append(hn, h)
+				}
+			}
+			hepNames = hn
+			for j, w := range names { // workload interfaces always do
+				if !hasWlPfx(w) && boundary == "" {
+					names[j] = wlpfx[j%len(wlpfx)] + w
+					if len(names[j]) > 15 {
+						names[j] = names[j][:15]
+					}
+				}
+			}
+			if len(hepNames) > 6 {
+				hepNames = hepNames[:6]
+			}
 		}
 
 		dflt := ""
@@ -583,9 +654,30 @@ func main() {
 			}
 			render = func(rr rules.RuleRenderer) []*generictables.Chain { return rr.WorkloadDispatchChains(eps) }
 		}
+		const smMask, smNonCali = 0xff00, 0x0100
+		if setmark {
+			ks = []kind{kSetMark}
+			kindTerm = fmt.Sprintf("(CSetMark %s %d %d)", listTerm(mapNames(hepNames)), smNonCali, smMask)
+			tags[len(tags)-1] = "kind:set-endpoint-mark"
+			heps := map[string]types.HostEndpointID{}
+			for _, nm := range hepNames {
+				heps[nm] = types.HostEndpointID{EndpointId: "hep-" + nm}
+			}
+			render = func(rr rules.RuleRenderer) []*generictables.Chain {
+				all := rr.EndpointMarkDispatchChains(rules.NewEndpointMarkMapper(smMask, smNonCali), eps, heps)
+				var out []*generictables.Chain
+				for _, ch := range all {
+					if ch.Name != rules.ChainDispatchFromEndPointMark { // matches on allocated marks: not modelled
+						out = append(out, ch)
+					}
+				}
+				return out
+			}
+		}
 
 		rr := mkRenderer(nft, reject, wlpfx)
 		epNames := append([]string{}, names...)
+		epNames = append(epNames, hepNames...)
 		if dflt != "" {
 			epNames = append(epNames, dflt)
 		}
@@ -601,7 +693,7 @@ func main() {
 				}
 			}()
 			chains = render(rr)
-			if nft && !host {
+			if nft && !host && !setmark {
 				fromMap, toMap = rr.DispatchMappings(eps)
 			}
 		}()
@@ -610,7 +702,7 @@ func main() {
 		nChild := 0
 		if !panicked {
 			maps := "[]"
-			if nft && !host {
+			if nft && !host && !setmark {
 				maps = fmt.Sprintf("[(KWlFrom, %s); (KWlTo, %s)]", conv.vmap(fromMap), conv.vmap(toMap))
 			}
 			implTerm = fmt.Sprintf("(Some {| rs_chains := %s; rs_maps := %s |})", conv.chains(chains), maps)
@@ -625,10 +717,66 @@ func main() {
 			tags = append(tags, "impl:panicked")
 		}
 
-		probes := genProbes(r, names, wlpfx, dflt, wc)
-		var pterms []string
-		for _, p := range probes {
-			pterms = append(pterms, fmt.Sprintf("(%s, %s)", nameTerm(p[0]), nameTerm(p[1])))
+		probes := genProbes(r, append(append([]string{}, names...), hepNames...), wlpfx, dflt, wc)
+		var capturedSet map[string]bool
+		if setmark && !panicked {
+			// does an interface that is in neither set match the "prefix<wildcard> -> goto child" pattern of a bin?
+			known := map[string]bool{}
+			for _, nm := range epNames {
+				known[nm] = true
+			}
+			// Simulate the root chain for every probe: the first matching rule decides.  A probe is "captured" when that
+			// rule is a "prefix<wildcard> -> goto child" rule and the child has no rule for the probe (it then falls off
+			// the end of the child, which has no end rules, and returns unmarked).
+			capturedSet = map[string]bool{}
+			byName := map[string]*generictables.Chain{}
+			for _, ch := range chains {
+				byName[ch.Name] = ch
+			}
+			gotoTarget := func(a generictables.Action) string {
+				switch v := a.(type) {
+				case iptables.GotoAction:
+					return v.Target
+				case *nftables.GotoAction:
+					return v.Target
+				}
+				return ""
+			}
+			pattern := func(rl generictables.Rule) string {
+				f := strings.Fields(rl.Match.Render())
+				if len(f) == 0 {
+					return ""
+				}
+				return f[len(f)-1]
+			}
+			matches := func(pat, p string) bool {
+				if pat == "" {
+					return true
+				}
+				if pat[len(pat)-1] == wc {
+					return strings.HasPrefix(p, pat[:len(pat)-1])
+				}
+				return pat == p
+			}
+			if root := byName[kSetMark.root]; root != nil {
+				for _, pr := range probes {
+					for _, rl := range root.Rules {
+						if !matches(pattern(rl), pr[0]) {
+							continue
+						}
+						if child := byName[gotoTarget(rl.Action)]; child != nil && strings.HasPrefix(child.Name, kSetMark.root+"-") {
+							found := false
+							for _, crl := range child.Rules {
+								found = found || pattern(crl) == pr[0]
+							}
+							if !found {
+								capturedSet[pr[0]] = true
+							}
+						}
+						break
+					}
+				}
+			}
 		}
 		var nterms, wterms []string
 		for _, nm := range names {
@@ -637,8 +785,29 @@ func main() {
 		for _, p := range wlpfx {
 			wterms = append(wterms, nameTerm(p))
 		}
-		coq := fmt.Sprintf("{| c_cfg := {| cf_nft := %s; cf_reject := %s; cf_wlpfx := %s |}; c_kind := %s; c_names := %s; c_impl := %s; c_probes := %s |}",
-			boolTerm(nft), boolTerm(reject), listTerm(wterms), kindTerm, listTerm(nterms), implTerm, listTerm(pterms))
+		mkCoq := func(ps [][2]string) string {
+			var pterms []string
+			for _, p := range ps {
+				pterms = append(pterms, fmt.Sprintf("(%s, %s)", nameTerm(p[0]), nameTerm(p[1])))
+			}
+			return fmt.Sprintf("{| c_cfg := {| cf_nft := %s; cf_reject := %s; cf_wlpfx := %s |}; c_kind := %s; c_names := %s; c_impl := %s; c_probes := %s |}",
+				boolTerm(nft), boolTerm(reject), listTerm(wterms), kindTerm, listTerm(nterms), implTerm, listTerm(pterms))
+		}
+		// set-endpoint-mark: probes that an unknown-interface child chain captures form their own case (known finding
+		// class); all the other probes are checked strictly in the main case.
+		var capProbes [][2]string
+		if len(capturedSet) > 0 {
+			var rest [][2]string
+			for _, p := range probes {
+				if capturedSet[p[0]] {
+					capProbes = append(capProbes, p)
+				} else {
+					rest = append(rest, p)
+				}
+			}
+			probes = rest
+		}
+		coq := mkCoq(probes)
 
 		// distribution tags
 		un := uniq(names)
@@ -675,5 +844,11 @@ func main() {
 			Sample: map[string]any{"renderer": map[bool]string{true: "nftables", false: "iptables"}[nft], "kind": kindTerm,
 				"names": names, "default": dflt, "chains": len(chains), "probes": len(probes), "panicked": panicked},
 			Tags: tags})
+		if len(capProbes) > 0 {
+			_ = enc.Encode(line{Coq: mkCoq(capProbes), NT: true, Key: key + "|captured-probes",
+				Sample: map[string]any{"kind": kindTerm, "names": names, "hep": hepNames, "captured_probes": len(capProbes),
+					"first_captured_probe": capProbes[0][0]},
+				Tags: []string{"kind:set-endpoint-mark", "setmark:unknown-probe-captured-by-child"}})
+		}
 	}
 }
